@@ -34,7 +34,8 @@ def _validate_ref_props(props_map, is_observable20=False):
     else:
         ref_prop_type = ReferenceProperty
     for prop_name, prop_obj in props_map.items():
-        tail = prop_name.rsplit("_", 1)[-1]
+        # (a property named just "ref" or "refs" does not end in "_ref/s")
+        tail = prop_name.rsplit("_", 1)[-1] if "_" in prop_name else None
         if tail == "ref" and not isinstance(prop_obj, ref_prop_type):
             raise ValueError(
                 f"{prop_name!r} is named like a reference property but is not "
